@@ -1069,6 +1069,10 @@ def ncv(x):
 STORE_VALUES = [num(x) for x in V.NUMS] + [
     num(x) for x in (2.5, -129.0, 127.0, 128.0, -128.0, 129.0, 254.5, 255.5, 0.49999999999999994, 0.5000000000000001, 32767.0, 32768.0, -32769.0,
                      65535.5, 4294967301.0, 1e20, -1e20, 3.4028234663852886e38, 3.4028235677973366e38, 3.402823567797337e38, 1e39, -1e39, 1e-46,
+                     # between the largest float32 and the point where rounding reaches 2^128 (still rounds down)
+                     3.4028235e38, 3.402823567797336e38, -3.4028235e38, 3.4028234663852889e38, -3.4028235677973366e38,
+                     # float32 subnormal halfway points
+                     7.006492321624085e-46, 7.006492321624087e-46, 2.1019476964872256e-45, 1.1754942807573643e-38,
                      1.401298464324817e-45, 7e-46, 16777217.0, 0.1, 2147483648.5, -2147483648.5, 9007199254740993.0 * 1024)
 ] + [sstr("3"), sstr(" 12 "), sstr("0x10"), sstr("abc"), sstr(""), sstr("-1.5"), sstr("1e3"), TRUE, ["b", 0], L, U,
      ["obj"], ["arr", []], ["arr", [num(7)]], ["arr", [num(1), num(2)]], ["vo", num(300)], ["ts", sstr("9")], ["fn"]]
@@ -1595,9 +1599,37 @@ def gen_seqs(seed, n, tmethods):
     return got
 
 
+def overlap_seqs(tmethods):
+    """Directed sequences: the buffer holds distinct bytes, then one view is copied into a view of every
+    other kind over the same bytes (different element sizes, source before / at / behind the target)."""
+    if "set" not in tmethods:
+        return []
+    out = []
+    init = [["w", 2, num(i), num(i + 1)] for i in range(SEQ_BYTES)]
+    for tk in T.KIND_NAMES:
+        ts = T.size_of(tk)
+        for sk in T.KIND_NAMES:
+            ss = T.size_of(sk)
+            for toff, soff in ((0, 0), (0, ss), (ts, 0), (8, 8 + ss), (8, 0)):
+                if toff % ts or soff % ss:
+                    continue
+                tlen = min(4, (SEQ_BYTES - toff) // ts)
+                for slen in (2, 3):
+                    if soff + slen * ss > SEQ_BYTES or slen > tlen:
+                        continue
+                    for off in (None, num(1)):
+                        if (1 if off else 0) + slen > tlen:
+                            continue
+                        out.append({"views": [[tk, toff, tlen], [sk, soff, slen], ["Uint8Array", 0, SEQ_BYTES]], "ops": init + [["set", 0, ["view", 1], off]], "directed": 1})
+    return out
+
+
 def run_typed_seqs(chk, guards, tmethods):
     n = 400 if chk.tier == "quick" else 2000
     seqs = gen_seqs(core.shard_seed(chk.seed, ID, "seqs"), n, tmethods)
+    directed = overlap_seqs(tmethods)
+    chk.extra["directed_overlap_sequences"] = len(directed)
+    seqs = directed + seqs
     batches = pool.chunks(seqs, 25)
     for batch, rb in zip(batches, pool.run(eval_seq_batch, batches, timeout=600)):
         if isinstance(rb, (pool.HANG, pool.CRASH)):
